@@ -461,6 +461,7 @@ impl<'source> CodeGenerator<'source> {
             }
             #[cfg(feature = "multi_template")]
             ast::Stmt::Import(import) => {
+                self.set_line_from_span(import.span());
                 self.add(Instruction::BeginCapture(CaptureMode::Capture));
                 self.add(Instruction::PushWith);
                 self.compile_expr(&import.expr);
@@ -472,6 +473,7 @@ impl<'source> CodeGenerator<'source> {
             }
             #[cfg(feature = "multi_template")]
             ast::Stmt::FromImport(from_import) => {
+                self.set_line_from_span(from_import.span());
                 self.add(Instruction::BeginCapture(CaptureMode::Discard));
                 self.add(Instruction::PushWith);
                 self.compile_expr(&from_import.expr);
@@ -739,6 +741,7 @@ impl<'source> CodeGenerator<'source> {
                 self.push_span(attr.span());
                 self.compile_expr(&attr.expr);
                 self.add(Instruction::SetAttr(attr.name));
+                self.pop_span();
             }
             _ => unreachable!(),
         }
